@@ -1,5 +1,5 @@
 CONSTANTS XMax = 7 YS = {0, 1, 3, 10} MaxAny = 3 MaxDots = 4
 INIT Init
 NEXT Next
-INVARIANTS Emit SmallClauses PieceEncloses
+INVARIANTS Emit SmallClauses PieceEncloses ScalarForms
 CHECK_DEADLOCK FALSE
